@@ -12,7 +12,8 @@
 From Coq Require Import ZArith List Bool Permutation.
 Import ListNotations.
 From Mds Require Import Slice.SliceUtilModel Slice.SliceUtilSpec Slice.SliceUtilProofs Slice.SliceUtilProofsRotate
-  Slice.SliceUtilProofsChunks Slice.SliceUtilProofsPartition Slice.SliceUtilProofsInt.
+  Slice.SliceUtilProofsChunks Slice.SliceUtilProofsPartition Slice.SliceUtilProofsInt
+  Slice.SliceUtilFastModel Slice.SliceUtilFastProofs.
 Local Open Scope Z_scope.
 
 (* At: for -len <= i < len the element at i, negative i counting from the end; no panic. *)
@@ -107,6 +108,28 @@ Theorem C17_rotate_view : forall (T : Type) (b : list T) (v : view) (k : Z),
 Proof. exact @rotate_view. Qed.
 Print Assumptions C17_rotate_view.
 Example C17_rotate_view_ex : rotate [9; 1; 2; 3; 8; 7] (mkView 1 3 4) 1 = Ok [9; 3; 1; 2; 8; 7].
+Proof. reflexivity. Qed.
+
+(* The long lines of the scale stream are replayed on a linear-time function; it IS the loop model,
+   for every base, view and k (in range or not). *)
+Theorem C17_rotate_fast_replay : forall (T : Type) (b : list T) (v : view) (k : Z),
+  rotate_view_fast b v k = rotate b v k.
+Proof. exact @rotate_view_fast_eq. Qed.
+Print Assumptions C17_rotate_fast_replay.
+Example C17_rotate_fast_replay_ex :
+  rotate_view_fast [9; 1; 2; 3; 8; 7] (mkView 1 3 4) (-1) = Ok [9; 2; 3; 1; 8; 7] /\
+  rotate_view_fast [9; 1; 2; 3; 8; 7] (mkView 1 3 4) 4 = Panic PDocOffset.
+Proof. split; reflexivity. Qed.
+
+(* Likewise for Partition: the one-pass function (kept prefix; the block of unkept elements as a
+   queue whose first element goes to its end whenever a kept element is met) IS the two-cursor loop
+   model -- same returned view, same arrangement of the unkept elements. *)
+Theorem C17_partition_fast_replay : forall (T : Type) (keep : T -> bool) (b : list T) (v : view),
+  partition_fast keep b v = partition keep b v.
+Proof. exact @partition_fast_eq. Qed.
+Print Assumptions C17_partition_fast_replay.
+Example C17_partition_fast_replay_ex :
+  partition_fast Z.even [9; 6; 1; 3; 2; 8; 4; 5; 7] (mkView 1 7 8) = Ok ([9; 6; 2; 8; 4; 3; 1; 5; 7], mkView 1 4 4).
 Proof. reflexivity. Qed.
 
 (* Partition(vs, keep), for every base array, every view in it and every predicate: no panic, no
